@@ -220,6 +220,8 @@ impl McScenario {
         McObservation {
             outcome: run.outcome,
             parsed: run.parsed,
+            from_solver_msg: run.from_solver_msg,
+            err_variant: run.err_variant,
             wire: w.wire.clone(),
             fired: w.fired.clone(),
             tstats: w.stats.clone(),
@@ -305,6 +307,8 @@ impl McScenario {
 pub struct McObservation {
     pub outcome: Outcome<Verdict>,
     pub parsed: Option<ParsedInfo>,
+    pub from_solver_msg: Option<String>,
+    pub err_variant: Option<&'static str>,
     pub wire: Vec<WireEntry>,
     pub fired: Vec<FiredFault>,
     pub tstats: TransportStats,
